@@ -434,8 +434,10 @@ def gate_check(w: gw.World, plugin: str, files: Optional[List[str]], prepopulate
         _place("committed_copy", seed, plugin, out, {"committed_copy_placed": 0})
         _place("stale_owned", seed, plugin, out, {"stale_owned_placed": 0})
         probes["gate_prepopulated"] += 1
-    before = gw.snapshot(w.base)
     env = gw.env_for(seed, "gate", random.Random(seed))
+    if (env.get("machine") or {}).get("tools"):
+        gw.fake_tools(w, env["machine"]["tools"])  # the simulator's own files: in place before the snapshot
+    before = gw.snapshot(w.base)
     res = gw.run_generator(w, plugin, str(out), str(td), files, env, fault=fault, root=str(w.base), repo=repo)
     after = gw.snapshot(w.base)
     # the simulator's own files of this invocation
